@@ -60,16 +60,16 @@ def run(index, rep, db=None):
     rep.note_analysed("optimizer_templates", len(db.templates))
     rep.note_analysed("abstract_environments", db.n_envs)
     rep.note_analysed("resources", {k: v["function"] for k, v in db.resources.items()})
-    sf(db, rep)
-    crop(db, rep)
-    meat(db, rep)
-    scp_cs(db, rep)
-    seaweed(db, rep)
-    nonneg(index, db, rep)
-    term(db, rep)
-    feed_biofuel(db, rep)
-    order(index, db, rep)
-    waste_provenance(index, rep)
+    rep.guard(sf, db, rep)
+    rep.guard(crop, db, rep)
+    rep.guard(meat, db, rep)
+    rep.guard(scp_cs, db, rep)
+    rep.guard(seaweed, db, rep)
+    rep.guard(nonneg, index, db, rep)
+    rep.guard(term, db, rep)
+    rep.guard(feed_biofuel, db, rep)
+    rep.guard(order, index, db, rep)
+    rep.guard(waste_provenance, index, rep)
     return db
 
 
